@@ -321,13 +321,27 @@ func c10R1(c *Check, sr *storeRoles) {
 					}
 				}
 				// uses of s: Return carrying s, field access of s, passing s to a call other than the predicate
+				// v is the looked-up session, possibly merged with other values (a phi with a fresh session)
+				isS := func(v ssa.Value) bool {
+					if v == s {
+						return true
+					}
+					if _, isPhi := v.(*ssa.Phi); isPhi {
+						for _, l := range Leaves(v, leafOpts{noConcat: true}) {
+							if l == s {
+								return true
+							}
+						}
+					}
+					return false
+				}
 				isPredCall := func(i ssa.Instruction) bool {
 					cc, ok := i.(*ssa.Call)
 					if !ok || cc.Common().StaticCallee() != sr.Expiry {
 						return false
 					}
 					for _, a := range cc.Common().Args {
-						if a == s {
+						if isS(a) {
 							return true
 						}
 					}
@@ -344,13 +358,13 @@ func c10R1(c *Check, sr *storeRoles) {
 							}
 						}
 					case *ssa.FieldAddr:
-						return x.X == s
+						return isS(x.X)
 					case *ssa.Call:
 						if isPredCall(i) {
 							return false
 						}
 						for _, a := range x.Common().Args {
-							if a == s {
+							if isS(a) {
 								return true
 							}
 						}
@@ -766,6 +780,60 @@ func c10R2(c *Check, sr *storeRoles) {
 				wn+" can succeed without executing HSETNX time_added (conditional stamping): a session re-created after removal or expiry has no creation time")
 		}
 	}
+	// only the two write operations stamp: an operation that is not a write (clear, read, remove) must not create
+	// the hash of an absent session — a later real write would inherit that creation time and TTL
+	var setters []*ssa.Function
+	for _, fn := range sr.redisMethods {
+		if fn.Parent() == nil && (fn.Name() == "SetTokenResponse" || fn.Name() == "SetAuthorizationState") {
+			setters = append(setters, fn)
+		}
+	}
+	for _, fn := range sr.redisMethods {
+		for _, ci := range allCalls(fn) {
+			if !isStamp(ci) {
+				continue
+			}
+			top := fn
+			for top.Parent() != nil {
+				top = top.Parent()
+			}
+			okWho := false
+			for _, st := range setters {
+				if top == st {
+					okWho = true
+				}
+			}
+			if !okWho && len(setters) > 0 {
+				// a helper every caller chain of which starts in a setter
+				okWho = true
+				var walk func(f *ssa.Function, d int) bool
+				walk = func(f *ssa.Function, d int) bool {
+					for _, st := range setters {
+						if f == st {
+							return true
+						}
+					}
+					callers := P.CallersOf(f)
+					if d == 0 || len(callers) == 0 {
+						return false
+					}
+					for _, cs := range callers {
+						cf := cs.Parent()
+						for cf.Parent() != nil {
+							cf = cf.Parent()
+						}
+						if !walk(cf, d-1) {
+							return false
+						}
+					}
+					return true
+				}
+				okWho = walk(top, 3)
+			}
+			c.Obl(okWho, "C10.R2", "redis-created-stamped-by-writes-only/"+nthCallKey(ci), P.Pos(ci.Pos()), "HSETNX time_added is issued by the two write operations only",
+				"HSETNX time_added is issued in "+fnKey(top)+", which is not one of the two write operations: an absent session is re-created (with a creation time and TTL) by an operation that writes nothing")
+		}
+	}
 	// the creation time is never deleted on its own (only with the whole key)
 	for _, fn := range sr.redisMethods {
 		for _, ci := range allCalls(fn) {
@@ -896,6 +964,40 @@ func c10R3(c *Check, sr *storeRoles) {
 	}
 	if !c.Anchor("C10.R3", "ExpireAt call", ex != nil) {
 		return
+	}
+	// every successful return of the refresher has armed the key's expiry: it is the EXPIREAT command's own
+	// result, or it happens with both timeouts known to be zero (nothing to enforce) — never "the deadline has
+	// passed, let Redis do it": a key without TTL, or with a longer one, is never reaped
+	{
+		ffr := FactsOf(ref)
+		nRet := 0
+		for _, r := range returnsOf(ref) {
+			if len(r.Results) == 0 {
+				continue
+			}
+			errV := r.Results[len(r.Results)-1]
+			if !isNilConst(errV) {
+				continue // an error, or the result of a command (checked below for EXPIREAT)
+			}
+			nRet++
+			zero := 0
+			for cond, pol := range ffr.At(r) {
+				x, op, k, ok := cmpWithConstInt(cond)
+				if !ok || k != 0 {
+					continue
+				}
+				n := fieldNameOfLoad(x)
+				if n != "absoluteSessionTimeout" && n != "idleSessionTimeout" {
+					continue
+				}
+				if (op == token.EQL && pol) || (op == token.NEQ && !pol) {
+					zero++
+				}
+			}
+			okRet := zero >= 2 || ffr.At(r).CallErrNil(ex, -1)
+			c.Obl(okRet, "C10.R3", fmt.Sprintf("refresher-success-arms-expiry#%d", nRet), P.Pos(instrPos(r)), "a nil return of the refresher happens only with both timeouts zero or after EXPIREAT succeeded",
+				"the TTL refresher can return success without having issued EXPIREAT although a timeout is configured: a key without (or with a longer) TTL is honoured past its limits")
+		}
 	}
 	tm := callArgs(ex)[2]
 	sawAbs, sawIdle := false, false
